@@ -332,7 +332,40 @@ fn program_list(thorough: bool, ctx: &Ctx) -> (Vec<Program>, bool) {
         println!("family {} programs so far {} exhaustive={}", fam.name, progs.lock().unwrap().len(), !stats.timed_out.load(Ordering::Relaxed));
     }
     let mut v = progs.into_inner().unwrap();
+    // derived programs: every value-only program of at most two calls, emitted twice over aliased
+    // inputs with the copy pinned to a public input and three consumers (de-duplication with
+    // rewritten slots that are already operands of kept ops)
+    {
+        let base = Family {
+            name: "dupbase-k2-c0".into(),
+            value_kinds: vec![VK::Add, VK::Sub, VK::Mul, VK::MulAdd],
+            assert_kinds: vec![],
+            max_value_ops: 2,
+            max_asserts: 0,
+            max_pub: 3,
+            max_priv: 0,
+            consts: vec![2],
+            max_wide: 1,
+            wide_no_atoms: true,
+            sym_reduce: true,
+            stages: vec![],
+            assert_split: None,
+        };
+        let derived: Mutex<Vec<(String, Program)>> = Mutex::new(vec![]);
+        let (seen2, prune2, stats2) = (SeenSet::default(), SeenSet::default(), Stats::default());
+        explore::<F, F>(&base, &consts(), ctx, 0.3, &seen2, &prune2, &stats2, &|_p, _m| {}, &|p, _m| {
+            if let Some(q) = vpe1::prog::duplicate_with_aliases(p) {
+                if materialize::<F, F>(&q, &consts()).is_ok() {
+                    derived.lock().unwrap().push((q.show(), q));
+                }
+            }
+        });
+        let d = derived.into_inner().unwrap();
+        println!("derived alias-duplicated programs: {}", d.len());
+        v.extend(d);
+    }
     v.sort_by(|a, b| a.0.cmp(&b.0));
+    v.dedup_by(|a, b| a.0 == b.0);
     (v.into_iter().map(|x| x.1).collect(), exhaustive)
 }
 
